@@ -31,6 +31,10 @@ pub enum ROp {
     SelfStopHeld,
     /// restart the held instance: the registry's view of it does not change
     RestartHeld,
+    /// `replace()` with the instance this client holds (possibly the registered one itself)
+    ReplaceHeld,
+    /// `register()` the instance this client holds
+    RegisterHeld,
 }
 
 pub const ALPHABET: [ROp; 10] = [
@@ -103,6 +107,24 @@ pub async fn reg_op<const K: u8>(held: &mut Option<Addr<Probe<K>>>, op: ROp) -> 
             Some(a) => match a.stop() {
                 Ok(()) => Res::Ok,
                 Err(e) => Res::Err(errkind(&e)),
+            },
+            None => Res::None,
+        },
+        ROp::ReplaceHeld => match held.as_ref() {
+            // (programs use it on a live held instance: its identity is part of the result)
+            Some(a) => match ident(a).await {
+                Some(me) => Res::Registered { new: me, replaced: a.clone().replace().await.is_some() },
+                None => Res::None,
+            },
+            None => Res::None,
+        },
+        ROp::RegisterHeld => match held.as_ref() {
+            Some(a) => match ident(a).await {
+                Some(me) => match a.clone().register().await {
+                    Ok((_, replaced)) => Res::Registered { new: me, replaced: replaced.is_some() },
+                    Err(e) => Res::Err(errkind(&e)),
+                },
+                None => Res::None,
             },
             None => Res::None,
         },
@@ -410,6 +432,27 @@ fn apply(m: &Model, e: &HEvent, hold_probe: &dyn Fn(u16, usize) -> bool) -> Opti
                     matches!(res, Res::OptBool(b) if *b == pred).then_some(n)
                 }
                 ROp::StopHeld | ROp::SelfStopHeld | ROp::RestartHeld => Some(n),
+                ROp::ReplaceHeld => match res {
+                    // replace returns the previous entry - also when it is the very instance
+                    // that is put in
+                    Res::Registered { new, replaced } => {
+                        let prev = n.entry[k];
+                        n.entry[k] = Some(*new);
+                        (*replaced == prev.is_some()).then_some(n)
+                    }
+                    // the held instance had gone: the program did not mean that, nothing to check
+                    _ => Some(n),
+                },
+                ROp::RegisterHeld => match (n.entry[k], res) {
+                    (Some(x), Res::Err(ErrKind::StillRunning)) if n.alive(x) => Some(n),
+                    (Some(x), _) if n.alive(x) => None,
+                    (prev, Res::Registered { new, replaced }) => {
+                        n.entry[k] = Some(*new);
+                        (*replaced == prev.is_some()).then_some(n)
+                    }
+                    (_, Res::None) => Some(n),
+                    _ => None,
+                },
             }
         }
     }
@@ -605,7 +648,7 @@ fn push_case(v: &mut Vec<Case>, programs: Vec<Vec<(u8, ROp)>>, preregistered: bo
 }
 
 fn needs_held(op: ROp) -> bool {
-    matches!(op, ROp::StopHeld | ROp::SelfStopHeld | ROp::RestartHeld)
+    matches!(op, ROp::StopHeld | ROp::SelfStopHeld | ROp::RestartHeld | ROp::ReplaceHeld | ROp::RegisterHeld)
 }
 
 fn cases(tier: Tier) -> Vec<Case> {
@@ -686,6 +729,23 @@ fn cases(tier: Tier) -> Vec<Case> {
             let desc = format!("registry [first start of the type fails] programs={}", p.iter().map(|c| c.iter().map(|(k, o)| format!("{o:?}{k}")).collect::<Vec<_>>().join(",")).collect::<Vec<_>>().join(" | "));
             let bound = if p.len() >= 3 { Some(if tier == Tier::Quick { 4 } else { 6 }) } else { None };
             v.push(Case { desc, exec: ExecCfg { yield_holding_lock: true, ..ExecCfg::default() }, bound, scene: Box::new(S { programs: p, preregistered: false, first_start_fails: true }) });
+        }
+    }
+    // replace / register with an instance the client already holds - possibly the registered one
+    {
+        let f = (1u8, ROp::FromRegistry);
+        let progs: Vec<Vec<Vec<(u8, ROp)>>> = vec![
+            vec![vec![f, (1, ROp::ReplaceHeld), (1, ROp::TryFromRegistry)]],
+            vec![vec![f, (1, ROp::ReplaceHeld), (1, ROp::ReplaceHeld)]],
+            vec![vec![f, (1, ROp::Unregister), (1, ROp::ReplaceHeld), (1, ROp::AlreadyRunning)]],
+            vec![vec![f, (1, ROp::RegisterHeld)]],
+            vec![vec![f, (1, ROp::Unregister), (1, ROp::RegisterHeld), (1, ROp::RegisterHeld)]],
+            vec![vec![(1, ROp::RegisterNew), (1, ROp::ReplaceHeld)], vec![f]],
+            vec![vec![f, (1, ROp::ReplaceHeld)], vec![(1, ROp::ReplaceNew)]],
+            vec![vec![f, (1, ROp::ReplaceHeld)], vec![f, (1, ROp::ReplaceHeld)]],
+        ];
+        for p in progs {
+            push_case(&mut v, p, false, None);
         }
     }
     // two service types are independent: same-type races with an unrelated type in between
